@@ -1,0 +1,46 @@
+//go:build verif
+
+package sm3
+
+// Contracts checked by /verif/gvc (s-expression syntax, see /verif/DESIGN.md).
+// This file contains comments only.
+
+//@ (defmacro dig8 (s) (concat (at (field s digest) 0) (at (field s digest) 1) (at (field s digest) 2) (at (field s digest) 3)
+//@                            (at (field s digest) 4) (at (field s digest) 5) (at (field s digest) 6) (at (field s digest) 7)))
+//@ (defmacro pack8 (a b c d e f g h) (concat a b c d e f g h))
+//@ (defmacro res8 (r) (concat (at r 0) (at r 1) (at r 2) (at r 3) (at r 4) (at r 5) (at r 6) (at r 7)))
+//@ (defmacro consumed () (bvsub (len msg0) (len msg)))
+//@ (defmacro absorbed () (sm3.absorb (old (dig8 sm3)) (old (row msg0)) (off msg0) (consumed)))
+
+//@ (func "(*SM3).update"
+//@   (uses "sm3")
+//@   (expand sm3.cf sm3.P0 sm3.P1 sm3.FF0 sm3.FF1 sm3.GG0 sm3.GG1 sm3.word)
+//@   (ensures digest (= (dig8 sm3) (sm3.absorb (old (dig8 sm3)) (old (row msg)) (off msg) (bvand (len msg) #xffffffffffffffc0))))
+//@   (modifies (field sm3 digest))
+//@   (loop 1
+//@     (invariant window (and (= (obj msg) (obj msg0)) (= (off msg) (bvsub (bvadd (off msg0) (len msg0)) (len msg)))
+//@                            (bvsle 0 (len msg)) (bvsle (len msg) (len msg0)) (bvsle (len msg) (cap msg))
+//@                            (= (bvurem (consumed) 64) 0)))
+//@     (invariant state (and (= a ((_ extract 255 224) (absorbed))) (= b ((_ extract 223 192) (absorbed)))
+//@                           (= c ((_ extract 191 160) (absorbed))) (= d ((_ extract 159 128) (absorbed)))
+//@                           (= e ((_ extract 127 96) (absorbed))) (= f ((_ extract 95 64) (absorbed)))
+//@                           (= g ((_ extract 63 32) (absorbed))) (= h ((_ extract 31 0) (absorbed)))))
+//@     (unfold-init (sm3.absorb (old (dig8 sm3)) (old (row msg0)) (off msg0) (consumed)))
+//@     (unfold (sm3.absorb (old (dig8 sm3)) (old (row msg0)) (off msg0) (bvadd (consumed) 64)))
+//@     (decreases (len msg))))
+
+//@ (func "(*SM3).update2"
+//@   (uses "sm3")
+//@   (expand sm3.cf sm3.P0 sm3.P1 sm3.FF0 sm3.FF1 sm3.GG0 sm3.GG1 sm3.word)
+//@   (ensures digest (= (res8 result) (sm3.absorb (old (dig8 sm3)) (old (row msg)) (off msg) (bvand (len msg) #xffffffffffffffc0))))
+//@   (loop 1
+//@     (invariant window (and (= (obj msg) (obj msg0)) (= (off msg) (bvsub (bvadd (off msg0) (len msg0)) (len msg)))
+//@                            (bvsle 0 (len msg)) (bvsle (len msg) (len msg0)) (bvsle (len msg) (cap msg))
+//@                            (= (bvurem (consumed) 64) 0)))
+//@     (invariant state (and (= a ((_ extract 255 224) (absorbed))) (= b ((_ extract 223 192) (absorbed)))
+//@                           (= c ((_ extract 191 160) (absorbed))) (= d ((_ extract 159 128) (absorbed)))
+//@                           (= e ((_ extract 127 96) (absorbed))) (= f ((_ extract 95 64) (absorbed)))
+//@                           (= g ((_ extract 63 32) (absorbed))) (= h ((_ extract 31 0) (absorbed)))))
+//@     (unfold-init (sm3.absorb (old (dig8 sm3)) (old (row msg0)) (off msg0) (consumed)))
+//@     (unfold (sm3.absorb (old (dig8 sm3)) (old (row msg0)) (off msg0) (bvadd (consumed) 64)))
+//@     (decreases (len msg))))
